@@ -1,6 +1,5 @@
 # type: ignore
 from __future__ import print_function
-import re
 import logging
 
 from .util import (Source, print_dump, get_marked_atribute, split_pkg,
@@ -16,14 +15,23 @@ def list_packages(project, root, filename):
     return sorted(r for r in project.list_packages(root))
 
 
+def id_suffix(text):
+    """Longest run of identifier characters at the end of text"""
+    pos = len(text)
+    while pos and ('_' + text[pos-1]).isidentifier():
+        pos -= 1
+    return text[pos:]
+
+
 def assist(project, source, position, filename=None, debug=False):
     source = Source(source, filename, position)
     ctx = EvalCtx(project)
     ln, col = position
     line = source.lines[ln - 1][:col]
+    prefix = id_suffix(line)
     if line.lstrip().startswith('from ') and ' import ' not in line:
         iname = line.rpartition(' ')[2]
-        package, sep, prefix = iname.rpartition('.')
+        package, sep, _ = iname.rpartition('.')
         if (not package or package.startswith('.')) and sep:
             package += '.'
         return prefix, list_packages(project, package, filename)
@@ -34,16 +42,15 @@ def assist(project, source, position, filename=None, debug=False):
     if marked_import:
         head, tail = marked_import
         if tail is None:
-            head, tail = split_pkg(head)
-            return tail, list_packages(project, head, filename)
+            head, _ = split_pkg(head)
+            return prefix, list_packages(project, head, filename)
         else:
             plist = list_packages(project, head, filename)
             module = project.get_nmodule(head, filename)
-            return tail, sorted(set(plist) | set(module.attr_list(ctx)))
+            return prefix, sorted(set(plist) | set(module.attr_list(ctx)))
 
     scope = extract_scope(source, project)
 
-    prefix = re.split(r'(\.|\s|\()', line)[-1]
     attr = get_marked_atribute(source.tree)
     names = {}
     if attr:
